@@ -50,14 +50,15 @@ Proof.
   - destruct H6 as (HN & _ & _). split; [exact HN|]. split; assumption.
 Qed.
 
-Lemma ab_add_eltorito_inv s bp cd cn ls pf bit efi m ba sg :
-  BInv s -> BInv (fst (bstep_add_eltorito s bp cd cn ls pf bit efi m ba sg)).
+Lemma ab_add_eltorito_inv fx s bp cd cn ls pf bit efi m ba sg :
+  BInv s -> BInv (fst (bstep_add_eltorito fx s bp cd cn ls pf bit efi m ba sg)).
 Proof.
   intros HI. unfold bstep_add_eltorito, brefuse. cbv zeta.
   destruct (m =? 2); [exact HI|].
   destruct (lsubtree bp (lroot (bl s))) as [[fn i fs|dn dl kids]|] eqn:Hsub; try exact HI.
   destruct (has_ino i (linodes (bl s))) eqn:Hin; cbn [negb]; [|exact HI].
   apply ab_has_ino_in in Hin. destruct (bi_live s HI) as (HN & HL & HE).
+  destruct (fx && (len_of i (linodes (bl s)) =? 0)); [exact HI|].
   set (sc := match ls with Some v => v | None => default_sector_count (len_of i (linodes (bl s))) end).
   destruct (bboot s) as [b|] eqn:Hb.
   - pose proof (bi_cat s HI) as HC. try rewrite Hb in HC. destruct HC as (C1 & C2 & (ab & C3) & C4).
@@ -127,23 +128,33 @@ Qed.
 
 (* ---- every operation, every history ---------------------------------------------------------------------- *)
 
-Theorem ab_step_preserves_inv s o : BInv s -> BInv (fst (bstep s o)).
+Theorem ab_step_gen_preserves_inv fx s o : BInv s -> BInv (fst (bstep_gen fx s o)).
 Proof.
-  intros HI. unfold bstep. destruct (bwreck s); [exact HI|].
+  intros HI. unfold bstep_gen. destruct (bwreck s); [exact HI|].
   destruct o;
     [apply ab_add_file_inv|apply ab_add_dir_inv|apply ab_add_link_inv|apply ab_add_cat_link_inv
     |apply ab_rm_link_inv|apply ab_rm_file_inv|apply ab_rm_dir_inv|apply ab_add_eltorito_inv
     |apply ab_rm_eltorito_inv]; exact HI.
 Qed.
 
-Theorem ab_run_inv_from ops : forall s, BInv s -> BInv (brun s ops).
+Theorem ab_step_preserves_inv s o : BInv s -> BInv (fst (bstep s o)).
+Proof. apply ab_step_gen_preserves_inv. Qed.
+
+Theorem ab_run_gen_inv_from fx ops : forall s, BInv s -> BInv (brun_gen fx s ops).
 Proof.
-  unfold brun. induction ops as [|o r IH]; intros s HI; cbn [fold_left]; [exact HI|].
-  apply IH, ab_step_preserves_inv, HI.
+  unfold brun_gen. induction ops as [|o r IH]; intros s HI; cbn [fold_left]; [exact HI|].
+  apply IH, ab_step_gen_preserves_inv, HI.
 Qed.
 
+Theorem ab_run_inv_from ops : forall s, BInv s -> BInv (brun s ops).
+Proof. apply ab_run_gen_inv_from. Qed.
+
+(* for the current code and for the code before the three repairs *)
+Theorem ab_run_gen_inv fx ops : BInv (brun_gen fx binit ops).
+Proof. apply ab_run_gen_inv_from, ab_init_ok. Qed.
+
 Theorem ab_run_inv ops : BInv (brun binit ops).
-Proof. apply ab_run_inv_from, ab_init_ok. Qed.
+Proof. apply ab_run_gen_inv. Qed.
 
 Print Assumptions ab_add_eltorito_inv.
 Print Assumptions ab_rm_eltorito_inv.
